@@ -50,6 +50,7 @@ type verifKernel struct {
 	lastPath   string
 	lastMask   uint32
 	lastAddFd  int
+	lastIno    int
 	lastRmFd   int
 	lastRmWd   uint32
 	rmLog      [8]uint32
@@ -100,6 +101,7 @@ func verifInotifyAddWatch(fd int, path string, mask uint32) (int, error) {
 		// adversarial file system: the path resolves to any inode, or fails
 		r = verifChoose("add.resolve", k.nIno+1)
 	}
+	k.lastIno = r
 	if r >= k.nIno {
 		return -1, verifAddErrnos[verifChoose("add.errno", len(verifAddErrnos))]
 	}
